@@ -521,6 +521,46 @@ func scenC12(c *ctx) {
 		yMap(&e)["glob"] = map[string]any{"pre": nz(g0), "post": nz(globalsDigest())}
 		c.rec.Emit(e)
 	}
+	// every kind of operation leaves the exported defaults and the registry alone (incl. parsing of
+	// unregistered suite strings, lookups of unknown names, helper calls)
+	globbed := func(e func() Event) {
+		g0 := globalsDigest()
+		ev := e()
+		yMap(&ev)["glob"] = map[string]any{"pre": nz(g0), "post": nz(globalsDigest())}
+		c.rec.Emit(ev)
+	}
+	for i := 0; i < c.n(60, 800); i++ {
+		name := c.grammarName()
+		switch i % 6 {
+		case 1:
+			name = strings.ToLower(name)
+		case 2:
+			name = "OCRA-1:HOTP-SHA1-6:QN08-T" + fmt.Sprint(1+c.rng.Intn(59)) + "M"
+		case 3:
+			name = string(c.randBytes(c.rng.Intn(20)))
+		case 4:
+			if len(names) > 0 {
+				name = names[c.rng.Intn(len(names))]
+			}
+		}
+		globbed(func() Event { return doNewRawSuite(k("parsed"), name, false) })
+		if sa, err := rawSuiteArg(name); err == nil {
+			in := c.admissibleInput(sa.su.Cfg, i)
+			key := c.someKey()
+			globbed(func() Event { return doGenerateOCRA(k("parsedgen"), b32(key), sa, in) })
+		}
+		cf := c.handBuilt(c.rng.Intn(32), c.rng.Intn(3), 4+c.rng.Intn(7), []byte(name))
+		globbed(func() Event { return doSuiteValidate(k("newsuite"), cf, 2) })
+		globbed(func() Event { return doDigitsFromStr(k("dfs"), name) })
+		globbed(func() Event {
+			return doAlgorithmFromStr(k("afs"), []string{"SHA1", "SHA256", "SHA512", "sha1", name}[i%5])
+		})
+		globbed(func() Event { return doAlgString(k("as"), uint8(c.rng.Intn(256))) })
+		globbed(func() Event { return doDecodeSecret(k("ds"), c.someSpelling(c.someKey())) })
+		globbed(func() Event {
+			return doHexInputToOCRA(k("hex"), [5]string{c.hexString(16), c.hexString(16), "", "", c.hexString(16)})
+		})
+	}
 	// results stay what they were after arguments were overwritten and many later calls were made
 	for i := 0; i < 200; i++ {
 		key := c.someKey()
